@@ -243,6 +243,9 @@ def replay(polys, lead_rings, model, int_dtype=None):
 
 
 # ------------------------------------------------------------------------------------------------ wrapper level (tagged arrays)
+C15_BASE = {'polygon': [[3, 3], None, [], [4], [3]], 'multipolygon': [[[3], [3, 3]], None, [], [[4]], [[3]]]}
+
+
 def oriented_task(kind, deriv, timeout=600, max_paths=3000, base=None, sort='real', dtype='float64'):
     """PolygonArray / MultiPolygonArray.oriented() on a tagged (possibly derived) array, fork on every ring's
     orientation; per path: rings kept or reversed (tag identity), shells ccw / holes cw when the area is non-zero,
@@ -255,7 +258,7 @@ def oriented_task(kind, deriv, timeout=600, max_paths=3000, base=None, sort='rea
     if np.dtype(dtype).kind in 'iu':
         sort, bound = 'int', (100 if np.dtype(dtype).itemsize == 2 else 1 << 12)     # integral, representable counterexamples
     ts = T.TagSpace(sort=sort)
-    specs = base if base is not None else BASE[kind]
+    specs = base if base is not None else C15_BASE[kind]
     src, _ = T.build_array(ts, kind, specs, dtype)
     arr = DERIVS[deriv][0](src)
     before_src = [T.element_tags(kind, src[i]) for i in range(len(src))]
@@ -360,7 +363,7 @@ def oriented_task(kind, deriv, timeout=600, max_paths=3000, base=None, sort='rea
 def replay_oriented(kind, deriv, model, specs=None, dtype='float64'):
     """real oriented() on the concrete array; exact integer checks of every clause"""
     from .wrappers import BASE, DERIVS, concrete_array
-    specs = specs or BASE[kind]
+    specs = specs or C15_BASE[kind]
     src = concrete_array(kind, specs, dtype, model)
     arr = DERIVS[deriv][0](src)
     snap = [None if src[i] is None else src[i].data.as_py() for i in range(len(src))]
